@@ -228,6 +228,11 @@ func (it *Interp) setupReflIntrinsics() {
 		return nil
 	}
 
+	// the type factory only records which node types exist (for the editor's node palette); not part of any
+	// claimed property
+	T["(*"+refutilPath+".TypeFactory).TypeRegistered"] = func(it *Interp, fn *ssa.Function, a []Value) Value { return it.tb.True }
+	T["(*"+refutilPath+".TypeFactory).RegisterType"] = func(it *Interp, fn *ssa.Function, a []Value) Value { return nil }
+
 	// ----- opaque JSON messages (C11, C13): zzverif.JSONMsg(v) is a byte string standing for json.Marshal(v);
 	// json.Unmarshal of such a message stores v (the stdlib round-trip contract for the basic types used).
 	T[zzPath+".JSONMsg"] = func(it *Interp, fn *ssa.Function, a []Value) Value {
